@@ -113,6 +113,9 @@ MapRes(m, r) == CASE m = "tag" -> <<[r EXCEPT !.t = PTag(r.t)]>>
                   \* a stateful mapping element appends how many values it has seen: 1, every cell is
                   \* mapped by its own deep copy of the sequence
                   [] m = "seen" -> <<[r EXCEPT !.t = PTag(r.t), !.ids = Append(r.ids, 1)]>>
+                  \* a mapping whose data result depends on the cell's context (appends its src): the
+                  \* sequence is applied to the cell, not to its data part
+                  [] m = "src" -> <<[r EXCEPT !.t = PTag(r.t), !.ids = Append(r.ids, r.src)]>>
 MapSem(m, h, edges) == ZipCells([idx \in Cells(edges) |-> MapRes(m, h[idx])], Cells(edges))
 
 \* nested-sequence form of a histogram's bins (JSON)
